@@ -83,7 +83,10 @@ def replay_walks(rep, g, walks, names, label):
                 diverged = True
                 masked += len(seq) - j - 1
                 break
-            if act["a"] == "DefineFromVar" and act["ok"]:
+            # a define from a bare variable shares storage today (known finding); so does the dimension-less annotation <[f64]>.
+            # With the source's full kind as annotation (<f64>, <[f64]:1,2>) the value IS copied today: no alias is recorded, an
+            # interference after such a define is a finding of its own
+            if (act["a"] == "DefineFromVar" or (act["a"] == "DefineFromVarAnnot" and act["i"] == 3)) and act["ok"]:
                 alias.add((act["n"], act["m"]))
                 for (x, y) in list(alias):      # transitive
                     if y == act["m"]: alias.add((act["n"], x))
@@ -241,6 +244,21 @@ def run(rep, tier, seed):
     log(f"[C05] part-source alphabet: {tp.distinct} states, {len(tp.cases)} transitions; replayed {np_} walks / {sp} statements; {vp} transitions validated, {mp} masked")
     rep.cov.update({"part_states": tp.distinct, "part_transitions": len(tp.cases), "part_walks_replayed": np_, "part_transitions_validated": vp})
     nreq += np_
+    # ---- define from a variable WITH a kind annotation that asks for no conversion (n<f64> := m, n<[f64]:1,2> := m, n<[f64]> := m):
+    #      its own graph over three names (two copies of one source)
+    ta = tlc.run("MC_C05", "MC_C05_annot.cfg", workers=16, timeout=3000, collect=("EDGE",), tag="MC_C05_annot")
+    if ta.violations or not ta.ok:
+        rep.fail("C05/model", "TLC reported a violation on the MechSession model (annotated-define alphabet): " + "; ".join(ta.errors[:3]), {"log": ta.log})
+    names3 = ["a", "b", "c"]
+    ga = S.Graph(ta.cases)
+    init3 = S.skey({"store": {n: {"cls": "undef", "d": []} for n in names3}, "mut": []})
+    walks_a = build_walks(ga, init3)
+    if len(walks_a) > (3000 if tier == "quick" else 40000):
+        walks_a = random.Random(seed + 2).sample(walks_a, 3000 if tier == "quick" else 40000)
+    na, va, ma, sa = replay_walks(rep, ga, walks_a, names3, "3-name annotated-define alphabet")
+    log(f"[C05] annotated-define alphabet: {ta.distinct} states, {len(ta.cases)} transitions; replayed {na} walks / {sa} statements; {va} transitions validated, {ma} masked")
+    rep.cov.update({"annot_states": ta.distinct, "annot_transitions": len(ta.cases), "annot_walks_replayed": na, "annot_transitions_validated": va})
+    nreq += na
     # ---- thorough: 3-name behaviours sampled by TLC simulation, replayed the same way
     if tier != "quick":
         ts = tlc.run("MC_C05", "MC_C05_sim.cfg", workers=1, simulate=6000, depth=16, timeout=3000, collect=("EDGE",),
